@@ -56,8 +56,10 @@ func TestVerif(t *testing.T) {
 	// target.smtp / target.lmtp log through the default logger; the (expected)
 	// "QUIT error" lines after scripted connection drops would swamp the shard logs.
 	log.DefaultLogger.Out = log.NopOutput{}
-	nRemote := r.N(1000, 120000)
-	nLMTP := r.N(600, 60000)
+	// remote and lmtp histories open listeners and TCP connections; their
+	// thorough counts are bounded by the machine's shared ephemeral port range.
+	nRemote := r.N(1000, 30000)
+	nLMTP := r.N(600, 15000)
 	nPipe := r.N(600, 60000)
 	for i := 0; i < nRemote; i++ {
 		idx := baseRemote + i
@@ -136,6 +138,23 @@ func countCalls(r *rep.Reporter, kind string, calls []call) {
 	}
 }
 
+// sample keeps two literal cases per group and process for the evidence file.
+var sampleN sync.Map
+
+func sample(r *rep.Reporter, group string, v any) {
+	n, _ := sampleN.LoadOrStore(group, new(int32))
+	if atomic.AddInt32(n.(*int32), 1) <= 2 {
+		r.Sample(v)
+	}
+}
+
+func firstOf(hist []any) any {
+	if len(hist) == 0 {
+		return nil
+	}
+	return hist[0]
+}
+
 func sortedKeys[V any](m map[string]V) []string {
 	ks := make([]string, 0, len(m))
 	for k := range m {
@@ -188,7 +207,8 @@ func runRemote(t *testing.T, r *rep.Reporter, c *rep.Case, idx int) {
 		}
 		h, err := newHop(sp, false, p.Chance(2, 5), &cur, plans)
 		if err != nil {
-			t.Fatal(err)
+			c.Inconclusive("environment: cannot start a scripted next hop: " + err.Error())
+			return
 		}
 		defer h.srv.Close()
 		hops[sp] = h
@@ -206,7 +226,12 @@ func runRemote(t *testing.T, r *rep.Reporter, c *rep.Case, idx int) {
 		if !ok {
 			return nil, fmt.Errorf("verif dialer: unknown host %q", addr)
 		}
-		return (&net.Dialer{}).DialContext(ctx, "tcp", a)
+		conn, err := (&net.Dialer{}).DialContext(ctx, "tcp", a)
+		if err != nil {
+			// environment (port exhaustion): the recipient is simply not accepted
+			r.Count("env_dial_errors_observed", 1)
+		}
+		return conn, err
 	}
 	tgt, err := remote.VerifNewTarget(remote.VerifTargetOpts{
 		Name: fmt.Sprintf("c09r%d", idx), Resolver: res, Dialer: dialer, ConnReuseLimit: 10,
@@ -427,7 +452,7 @@ func runRemote(t *testing.T, r *rep.Reporter, c *rep.Case, idx int) {
 	if r.Replaying() {
 		fmt.Printf("remote case %d: %d transactions, recipients pool %q\n", idx, nTx, pool)
 	}
-	r.Sample(map[string]any{"group": "remote", "index": idx, "transactions": nTx, "pool": pool})
+	sample(r, "remote", map[string]any{"group": "remote", "index": idx, "transactions": nTx, "pool": pool, "first_transaction": firstOf(hist)})
 	c.Done("remote:"+strings.Join(shape, ">"), nontrivial)
 }
 
@@ -447,7 +472,8 @@ func runLMTP(t *testing.T, r *rep.Reporter, c *rep.Case, idx int) {
 	}
 	h, err := newHop("lmtp", !plainSMTP, p.Chance(2, 5), &cur, plans)
 	if err != nil {
-		t.Fatal(err)
+		c.Inconclusive("environment: cannot start a scripted next hop: " + err.Error())
+		return
 	}
 	defer h.srv.Close()
 
@@ -628,7 +654,7 @@ func runLMTP(t *testing.T, r *rep.Reporter, c *rep.Case, idx int) {
 		}
 		shape = append(shape, fmt.Sprintf("[%s|%s|open=%v|mixed=%v]", strings.Join(sortedKeys(cm), ","), strings.Join(plans[tx].faults(), ","), openFail, len(mixed) > 1))
 	}
-	r.Sample(map[string]any{"group": "lmtp", "index": idx, "transactions": nTx, "pool": pool})
+	sample(r, "lmtp", map[string]any{"group": "lmtp", "index": idx, "transactions": nTx, "pool": pool, "next_hop_smtputf8": h.utf8, "first_transaction": firstOf(hist)})
 	c.Done("lmtp:"+strings.Join(shape, ">"), nontrivial)
 }
 
@@ -824,6 +850,18 @@ func runPipe(t *testing.T, r *rep.Reporter, c *rep.Case, idx int) {
 		level2[k][a] = outs
 	}
 
+	// addresses some table produces from a DIFFERENT key (N-to-1 / overlap bookkeeping)
+	tableOutput := map[string]bool{}
+	for _, tbl := range []map[string][]string{global, level2[1], level2[2]} {
+		for k, vs := range tbl {
+			for _, v := range vs {
+				if v != k {
+					tableOutput[strings.ToLower(v)] = true
+				}
+			}
+		}
+	}
+
 	var sb strings.Builder
 	fmt.Fprintf(&sb, "modify {\n    c09_bodymod %s\n}\n", tag)
 	sb.WriteString(tableText("", global))
@@ -859,6 +897,7 @@ func runPipe(t *testing.T, r *rep.Reporter, c *rep.Case, idx int) {
 			rcpt     string
 		}
 		effOf := map[string][]eff{}
+		outputOf := map[string][]string{} // effective recipient -> client-supplied addresses rewritten to it
 		rcptErr := map[string]string{}
 		for i := 0; i < n; i++ {
 			a := variantCase(p, prng.Pick(p, clients))
@@ -876,6 +915,7 @@ func runPipe(t *testing.T, r *rep.Reporter, c *rep.Case, idx int) {
 				pt.Effective[e.Rcpt] = true
 				if e.Rcpt != a {
 					pt.Rewrote[a] = true
+					outputOf[e.Rcpt] = append(outputOf[e.Rcpt], a)
 				}
 				if e.Class == mx.OK {
 					effOf[a] = append(effOf[a], eff{e.Delivery, e.Rcpt})
@@ -939,8 +979,23 @@ func runPipe(t *testing.T, r *rep.Reporter, c *rep.Case, idx int) {
 		for _, a := range pt.Supplied {
 			suppliedSet[a] = true
 		}
+		// a's results cannot be attributed to a alone if one of its effective
+		// recipients is shared with another client-supplied address, is itself
+		// another client-supplied address, or if a is what another
+		// client-supplied address was rewritten to (OriginalRcpts then maps a's
+		// own address - and, through a nested pipeline, a's results - elsewhere).
 		shared := func(a, e string) bool {
-			return len(ownersOf[e]) > 1 || (e != a && suppliedSet[e])
+			if len(ownersOf[e]) > 1 || (e != a && suppliedSet[e]) {
+				return true
+			}
+			for _, other := range outputOf[a] {
+				if other != a {
+					return true
+				}
+			}
+			// ... including as an intermediate address no target ever sees
+			// (known from the generated tables, not from the system under test)
+			return tableOutput[strings.ToLower(a)]
 		}
 		nFailed := 0
 		if modFail {
@@ -1006,6 +1061,6 @@ func runPipe(t *testing.T, r *rep.Reporter, c *rep.Case, idx int) {
 	for _, st := range tgts {
 		parts = append(parts, fmt.Sprint(st.Partial))
 	}
-	r.Sample(map[string]any{"group": "pipeline", "index": idx, "config": text})
+	sample(r, "pipeline", map[string]any{"group": "pipeline", "index": idx, "config": text})
 	c.Done("pipe:"+strings.Join(parts, ",")+strings.Join(shape, ">"), nontrivial)
 }
